@@ -98,7 +98,7 @@ def check_C01(tier, seed, replay=None):
         flagsets = FLAGSETS_8
     else:
         trees = F.exhaustive(2, F.LEAVES_SMALL)
-        nrand, maxlen = 3000, 4
+        nrand, maxlen = 3000, 3
         flagsets = FLAGSETS_8
     groups = F.groups_from_trees(trees)
     cfg = F.RandCfg(depth=4, maxrules=3, safe_rep=False)
@@ -1425,6 +1425,7 @@ def c09_groups(seed, n, gi0=1):
 
 
 def c09_idiom_groups(seed, n, gi0):
+    pool = [F.A, F.B, 99, 100, 101, 102, F.UA, 66, 95, 36, 48, 49]
     """leaf rules that are nothing but a class / a literal / a small choice, referenced from several rules and several
     places, each time right next to an alternative the optimizer merges with (the identifier Head/Tail idiom)"""
     from peg import Gram
@@ -1433,6 +1434,33 @@ def c09_idiom_groups(seed, n, gi0):
     pool = [F.A, F.B, 99, 100, 101, 102, F.UA, 66, 95, 36, 48, 49]
     for i in range(n):
         g = Gram(gi0 + i)
+        if rng.random() < 0.2:
+            # scope idiom: a leaf rule that binds a label at its top level, inlined directly under an action / a label / a
+            # predicate / a repetition inside a sequence that binds THE SAME label name and uses it afterwards
+            nm = rng.choice(["k", "v"])
+            t1, t2, t3 = [g.lit([rng.choice(pool[:4])]) for _ in range(3)]
+            leafbody = g.seq([g.label(t2, nm), t3])
+            if rng.random() < 0.7:
+                leafbody = g.action(leafbody)
+            site = g.ref(2)
+            w = rng.random()
+            if w < 0.4:
+                site = g.action(site)
+            elif w < 0.55:
+                site = g.label(site, "w")
+            elif w < 0.7:
+                site = g.un("opt", site)
+            elif w < 0.8:
+                site = g.un("and", site)
+            items = [g.label(t1, nm), site, g.pred(False, "true")]
+            if rng.random() < 0.3:
+                items = [g.recover(g.seq(items), g.lit([99]), ["la"])]
+            g.rules = [g.action(g.seq(items)) if len(items) > 1 else g.action(items[0]), leafbody]
+            g.disp = ["", ""]
+            g.compute_args()
+            g.maydiverge = False
+            out.append(g)
+            continue
         nleaf = rng.randint(1, 2)
         nr = 2 + nleaf + rng.randint(0, 1)
         leaf_ix = list(range(nr - nleaf + 1, nr + 1))
@@ -1521,11 +1549,14 @@ def check_C09(tier, seed, replay=None):
     def gen_flags(pk):
         names = [g.sname() for g in pk] + [g.rname(k) for g in pk for k in protected[g.gi]]
         return ["-alternate-entrypoints", ",".join(names)]
+    run.bisect_build_failures = True      # an optimised grammar whose generated code does not compile is a violation, not a machinery failure
     div, tot = run.execute(groups, inputs, options, plan_for, [["-optimize-grammar"], ["-optimize-grammar", "-optimize-parser"], []],
                            cmp=dict(norm=True, errs=False), gen_flags_for=gen_flags, pack_size=150)
     # real-vs-real: optimised against unoptimised (acceptance, consumed prefix, normalised value and events)
-    triples = len(run.variants) // 3
-    pairs = [(3 * i + 2, 3 * i) for i in range(triples)]
+    byname = {}
+    for ix, v in enumerate(run.variants):
+        byname.setdefault(v.name.rsplit("f", 1)[0], {})[v.name.rsplit("f", 1)[1]] = ix
+    pairs = [(d_["2"], d_["0"]) for d_ in byname.values() if "2" in d_ and "0" in d_]
     d2, npairs = pairwise(run, pairs, fields=("status", "ok", "end", "nval"))
     div += d2
     return std_finish(run, div, tot, "grammars with leaf rules referenced from several places, nested choices/sequences, adjacent literals and classes in all combinations of i and ^, predicates, actions with labels (+ random throw/recover grammars) x all inputs over {a,b,A,c} x a random subset of rules as -alternate-entrypoints (each protected rule entered directly); the -optimize-grammar parser's traces are validated against PegRef applied to the UNOPTIMISED grammar (acceptance, end offset, action events with text/pos/normalised labels, normalised value) and against the unoptimised parser",
